@@ -195,7 +195,7 @@ theorem get_ok (l : Log) (hinv : Inv l) (off : Int) :
     by_cases hre : s'.recs = []
     · -- an empty first segment is the head of an empty log
       have hone : (shape l.segs).length = 1 := by
-        have h := hsh.nonempty 0
+        have h := hsh.nonempty_idx 0
         by_cases h2 : 0 + 1 < (shape l.segs).length
         · exact absurd (hrecs ▸ hre) (h h2)
         · omega
@@ -260,7 +260,7 @@ theorem get_ok (l : Log) (hinv : Inv l) (off : Int) :
           rw [hrecs2]; exact hsh.sorted _ (List.getElem_mem hi2)
         rw [readerGet_spec c2' s2 its2 offsetNewest hit2 hsorted2]
         have hne2 : s2.recs ≠ [] := by
-          rw [hrecs2]; exact hsh.nonempty _ (by omega)
+          rw [hrecs2]; exact hsh.nonempty_idx _ (by omega)
         obtain ⟨f, hf⟩ : ∃ f, s2.recs.head? = some f := by
           cases hrc : s2.recs with
           | nil => exact absurd hrc hne2
@@ -345,7 +345,7 @@ theorem get_ok (l : Log) (hinv : Inv l) (off : Int) :
       -- an empty segment is the head; its base is the next offset
       have hre : s'.recs = [] := by cases hrc : s'.recs <;> simp_all
       have hlast : ¬ i + 1 < (shape l.segs).length := by
-        intro h; exact hsh.nonempty i h (by rw [← hrecs]; exact hre)
+        intro h; exact hsh.nonempty_idx i h (by rw [← hrecs]; exact hre)
       have hnext : (abs l).next = ((shape l.segs)[i]'hst.lt).1 := by
         rw [hnextv, shapeNext_last _ hsh.ne]
         have : (shape l.segs).length - 1 = i := by omega
